@@ -95,12 +95,49 @@ Proof.
   - f_equal; ring.
 Qed.
 
+(* how far the decimal exponent can be from zero *)
+Lemma rt_shortest_from_p fuel : forall n k incl x lo hi den c p,
+  shortest_from fuel n k incl x lo hi den = Some (c, p) -> n - k <= p < n - k + Z.of_nat fuel.
+Proof.
+  induction fuel as [|f IH]; intros n k incl x lo hi den c p H; [discriminate|].
+  cbn [shortest_from] in H. cbv zeta in H.
+  match type of H with (if ?b then _ else _) = _ => destruct b end; [injection H as <- <-; lia|].
+  match type of H with (if ?b then _ else _) = _ => destruct b end; [injection H as <- <-; lia|].
+  match type of H with (if ?b then _ else _) = _ => destruct b end; [injection H as <- <-; lia|].
+  match type of H with (if ?b then _ else _) = _ => destruct b end; [injection H as <- <-; lia|].
+  apply IH in H. lia.
+Qed.
+
+Lemma rt_strip10_p fuel : forall c p c' p', strip10 fuel c p = (c', p') -> p - Z.of_nat fuel <= p' <= p.
+Proof.
+  induction fuel as [|f IH]; intros c p c' p' H.
+  - cbn in H. injection H as <- <-. lia.
+  - cbn [strip10] in H. destruct ((c mod 10 =? 0) && negb (c =? 0)); [apply IH in H; lia|injection H as <- <-; lia].
+Qed.
+
+Lemma rt_dec_exponent_range num den k : dec_exponent num den = Some k ->
+  let k0 := ((Z.log2 num - Z.log2 den) * 30103) / 100000 in k0 - 1 <= k <= k0 + 2.
+Proof.
+  unfold dec_exponent. cbv zeta. intros H. apply find_some in H as [Hin _].
+  cbn [In] in Hin. lia.
+Qed.
+
+(* equal fractions compare alike *)
+Lemma rt_cmp_frac_eq n d n' d' K t : 0 < d -> 0 < d' -> n * d' = n' * d -> rt_cmp n d K t = rt_cmp n' d' K t.
+Proof.
+  intros Hd Hd' E. unfold rt_cmp.
+  rewrite <- (rt_compare_scale (n * rt_N2 t) (K * rt_P2 t * d) d' Hd').
+  rewrite <- (rt_compare_scale (n' * rt_N2 t) (K * rt_P2 t * d') d Hd).
+  replace (n * rt_N2 t * d') with (n * d' * rt_N2 t) by ring. rewrite E. f_equal; ring.
+Qed.
+
 (* the statement about Num.shortest_decimal the string level uses *)
 Theorem rt_shortest_decimal_sound (q : positive) (e : Z) ds dp :
   podd q -> Zpos q < two53 -> -1000 < e < 900 ->
   shortest_decimal (Zpos q) e = Some (ds, dp) ->
-  exists c p, 0 < c /\ ds = dec_of_Z c /\ dp = Z.of_nat (length ds) - p /\
-    forall neg, round_ratio neg (rt_num c p) (rt_den p) = FRVal (FFin (if neg then Zneg q else Zpos q) e).
+  exists c p, 0 < c /\ ds = dec_of_Z c /\ dp = Z.of_nat (length ds) - p /\ -350 < p < 350 /\
+    forall neg n d, 0 < n -> 0 < d -> n * rt_den p = rt_num c p * d ->
+      round_ratio neg n d = FRVal (FFin (if neg then Zneg q else Zpos q) e).
 Proof.
   intros Hodd Hq53 He H. unfold shortest_decimal in H. cbv zeta in H.
   set (shift := 53 - (Z.log2 (Zpos q) + 1)) in *.
@@ -109,7 +146,7 @@ Proof.
   set (LO := if Zpos q =? 1 then X - 1 else X - 2) in *.
   set (sc := if 0 <=? s then 2 ^ s else 1) in *.
   set (den := if 0 <=? s then 1 else 2 ^ (- s)) in *.
-  destruct (dec_exponent (X * sc) den) as [k|]; [|discriminate].
+  destruct (dec_exponent (X * sc) den) as [k|] eqn:DE; [|discriminate].
   destruct (shortest_from 17 1 k (1 <=? shift) (X * sc) (LO * sc) ((X + 2) * sc) den) as [[c0 p0]|] eqn:SF; [|discriminate].
   destruct (strip10 20 c0 p0) as [c p] eqn:ST. injection H as <- <-.
   pose proof (rt_shift_range q e Hq53) as Hs. fold shift in Hs.
@@ -129,12 +166,32 @@ Proof.
     - pose proof (rt_pow10_pos (- p0) ltac:(lia)).
       destruct (Z.compare_spec (c0 * pow10 (- p0) * den) (LO * sc)); try discriminate; nia. }
   destruct (rt_strip10_sound 20 c0 p0 c p (1 <=? shift) (LO * sc) ((X + 2) * sc) den ST Hc0 Hin0) as [Hin Hc].
-  exists c, p. split; [exact Hc|]. split; [reflexivity|]. split; [reflexivity|]. intros neg.
+  exists c, p. split; [exact Hc|]. split; [reflexivity|]. split; [reflexivity|]. split.
+  { (* the range of the decimal exponent, from the bit lengths *)
+    pose proof (rt_dec_exponent_range _ _ _ DE) as Hk. cbv zeta in Hk.
+    pose proof (rt_shortest_from_p _ _ _ _ _ _ _ _ _ _ SF) as Hp0. pose proof (rt_strip10_p _ _ _ _ _ ST) as Hp.
+    assert (Ha : 0 <= Z.log2 (X * sc) < 955).
+    { split; [apply Z.log2_nonneg|]. apply Z.log2_lt_pow2; [apply Z.mul_pos_pos; lia|].
+      assert (sc <= 2 ^ 900).
+      { unfold sc. destruct (Z.leb_spec 0 s); [apply Z.pow_le_mono_r; unfold s; lia|]. apply (Z.pow_le_mono_r 2 0 900); lia. }
+      assert (X < 2 ^ 55) by (rewrite HX; change (2 ^ 55) with (4 * 2 ^ 53); lia).
+      replace 955 with (55 + 900) by lia. rewrite Z.pow_add_r by lia.
+      assert (P9 : 0 < 2 ^ 900) by (apply Z.pow_pos_nonneg; lia).
+      set (T := 2 ^ 900) in *. set (U := 2 ^ 55) in *.
+      assert (X * sc <= X * T) by (apply Z.mul_le_mono_nonneg_l; lia).
+      assert (X * T < U * T) by (apply Z.mul_lt_mono_pos_r; lia). lia. }
+    assert (Hb : 0 <= Z.log2 den <= 1054).
+    { split; [apply Z.log2_nonneg|]. unfold den. destruct (Z.leb_spec 0 s); [cbn; lia|].
+      rewrite Z.log2_pow2 by lia. unfold s. lia. }
+    lia. }
+  intros neg n d Hn0 Hd0 Efr.
   unfold in_interval in Hin. apply andb_prop in Hin as [A B].
   unfold sc, den in A, B. rewrite rt_scaled_is_cmp in A, B.
   assert (Hn : 0 < rt_num c p).
   { unfold rt_num. destruct (0 <=? - p) eqn:C; [|exact Hc]. apply Z.mul_pos_pos; [exact Hc|apply Z.pow_pos_nonneg; lia]. }
-  apply (rt_round_interval q e (rt_num c p) (rt_den p) Hodd Hq53 He Hn (rt_den_pos p)).
+  rewrite <- (rt_cmp_frac_eq n d _ _ LO s Hd0 (rt_den_pos p) Efr) in A.
+  rewrite <- (rt_cmp_frac_eq n d _ _ (X + 2) s Hd0 (rt_den_pos p) Efr) in B.
+  apply (rt_round_interval q e n d Hodd Hq53 He Hn0 Hd0).
   - unfold rt_LO, rt_incl. fold shift. change (e - shift - 2) with s.
     replace (if Zpos q =? 1 then 4 * (Zpos q * 2 ^ shift) - 1 else 4 * (Zpos q * 2 ^ shift) - 2) with LO by (unfold LO; rewrite HX; reflexivity).
     exact A.
